@@ -15,9 +15,11 @@ class Ctx(object):
         self.mods = self.src.import_native()
         self.T = F.Tables(self.mods)
         self.E = Engine(self.src)
+        self.E.lower_hints = list(self.T.RELEASE_TYPES)
         self.rng = random.Random(run.seed)
         import contracts
         self.contracts = contracts.all_contracts(self.src)
+        self.E.summaries.update(contracts.all_summaries(self.src))
 
 
 def ctx(run):
